@@ -18,7 +18,13 @@ from . import env
 from . import probes
 
 HTML5LIB_DIR = os.path.join(env.REPO, "html5lib") + os.sep
-MAX_STEPS = 600000
+MAX_STEPS = 300000
+
+
+class StepBudgetExceeded(BaseException):
+    """Raised *inside* a simulated thread (from its trace function) when the run exceeds its budget of line events: the
+    thread unwinds instead of running on untraced.  BaseException, so that no `except Exception` swallows it."""
+
 
 # --------------------------------------------------------------------------
 # Which code is "hot" (touches state shared by independent caller threads) is
@@ -60,9 +66,30 @@ def _build_shared_index():
                 attrs = {a for a, av in vars(v).items() if isinstance(av, _MUTABLE) and not a.startswith("__")}
                 if attrs:
                     class_mutables[v.__qualname__] = attrs
+                # objects that are class attributes are shared by every instance in every thread
+                for a, av in vars(v).items():
+                    if a.startswith("__"):
+                        continue
+                    if isinstance(av, _MUTABLE) or (type(av).__module__.startswith("html5lib") and hasattr(av, "__dict__")
+                                                    and not isinstance(av, (type, types.FunctionType, property, staticmethod,
+                                                                            classmethod))):
+                        shared_instances.add(id(av))
         mutable_globals[mname] = names
     _shared.update(built=True, mutable_globals=mutable_globals, shared_instances=shared_instances,
-                   class_mutables=class_mutables, code_hot={})
+                   class_mutables=class_mutables, code_hot={}, type_mutables={}, code_type_hot={})
+
+
+def _type_mutable_names(t):
+    """Names of class-level mutable containers visible on instances of t (whole MRO)."""
+    tm = _shared["type_mutables"]
+    names = tm.get(t)
+    if names is None:
+        names = set()
+        for k in t.__mro__:
+            if getattr(k, "__module__", "").startswith("html5lib"):
+                names |= {a for a, av in vars(k).items() if isinstance(av, _MUTABLE) and not a.startswith("__")}
+        tm[t] = names
+    return names
 
 
 def frame_is_hot(frame):
@@ -87,8 +114,17 @@ def frame_is_hot(frame):
         return True
     if code.co_argcount and code.co_varnames[0] == "self":
         me = frame.f_locals.get("self")
-        if me is not None and id(me) in _shared["shared_instances"]:
-            return True
+        if me is not None:
+            if id(me) in _shared["shared_instances"]:
+                return True
+            # a method (possibly inherited) that names a class-level mutable container of the instance's class,
+            # e.g. Phase.processStartTag looking up self.startTagHandler, the dispatch table shared by all parsers
+            key = (code, type(me))
+            cth = _shared["code_type_hot"]
+            hot = cth.get(key)
+            if hot is None:
+                hot = cth[key] = bool(set(code.co_names) & _type_mutable_names(type(me)))
+            return hot
     return False
 
 
@@ -137,7 +173,7 @@ class Baton(object):
                 baton.total_steps += 1
                 if baton.total_steps > MAX_STEPS:
                     baton.overrun = True
-                    return None
+                    raise StepBudgetExceeded()
                 if baton.replay is not None:
                     if w.quantum_left is not None:
                         w.quantum_left -= 1
@@ -152,12 +188,16 @@ class Baton(object):
         local_cold = make_local(False)
 
         def tracer(frame, event, arg):
+            if baton.overrun:
+                raise StepBudgetExceeded()
             if frame.f_code.co_filename.startswith(prefix):
                 return local_hot if frame_is_hot(frame) else local_cold
             return None
         return tracer
 
     def _yield(self, w, frame, hot=None):
+        if self.overrun:
+            return
         others = [o for o in self.workers if not o.done and o is not w]
         if not others:
             return
@@ -382,7 +422,8 @@ def execute(case):
     stats["fault_free"] = b.preemptions == 0
     res["digest"] = env.digest((b.taken, [[r[:1] + (env.digest(r[1:]),) for r in (rs or [])] for rs in results]))
     if b.overrun:
-        return _fail(res, "liveness", "more than %d line steps in one threaded run" % MAX_STEPS)
+        return _fail(res, "liveness", "more than %d line steps in one threaded run (the same operations need a few thousand "
+                     "when run alone)" % MAX_STEPS)
     for tid, e in enumerate(errors):
         if e is not None:
             return _fail(res, "thread-exception", "thread %d died with %s: %s" % (tid, type(e).__name__, e))
